@@ -35,6 +35,7 @@
 -/
 import GraphiqModel.Proofs.MetricsHistCheck
 import GraphiqModel.Proofs.MetricsHistLongest
+import GraphiqModel.Proofs.MetricsHistChain
 import GraphiqModel.Properties.C12
 namespace Graphiq.C18
 open Graphiq Graphiq.Dag Graphiq.Metrics
@@ -434,6 +435,29 @@ theorem metrics_after_history_wires (ne np nc : Nat) (es : List C12.Edit) (hok :
   obtain ⟨⟨P, g⟩, _⟩ := C12.groupHyp_on_every_reachable_circuit ne np nc es hok
   exact ⟨P, g, fun r hl => regGateHistory_eq_wire g.inv hl⟩
 
+/-! ## 8. what the ASAP specification means: lengths of longest dependency chains
+
+  `Spec.depth` / `Spec.regDepth` / `Spec.layerOf` are computed by layering the operation list over shared registers.  They are the
+  definitional quantities of the property — "depth = length of the longest dependency chain" — by the theorems below, which speak of
+  the operation list only: a dependency chain (`Chain seq pre o k`) is a subsequence of `k` operations ending at the operation `o`
+  standing after the prefix `pre`, consecutive ones sharing a register. -/
+
+/-- the ASAP layer of an operation = the length of the longest dependency chain ending at it (attained, and an upper bound) -/
+theorem asap_layer_is_longest_chain {seq pre : List Op} {o : Op} {suf : List Op} (hseq : seq = pre ++ o :: suf) :
+    Chain seq pre o (Spec.layerOf (Spec.fronts pre) o) ∧ ∀ k, Chain seq pre o k → k ≤ Spec.layerOf (Spec.fronts pre) o :=
+  layer_is_longest_chain hseq
+
+/-- **`Spec.depth` = the length of the longest dependency chain of the operation list** -/
+theorem spec_depth_is_longest_chain (seq : List Op) :
+    (∀ pre o k, Chain seq pre o k → k ≤ Spec.depth seq) ∧ (seq ≠ [] → ∃ pre o, Chain seq pre o (Spec.depth seq)) :=
+  depth_is_longest_chain seq
+
+/-- **`Spec.regDepth seq r` = the length of the longest dependency chain ending at an operation on register `r`** (0 if none) -/
+theorem spec_reg_depth_is_longest_chain (seq : List Op) (r : Reg) :
+    (∀ pre o k, Chain seq pre o k → r ∈ opRegs o → k ≤ Spec.regDepth seq r) ∧
+    (Spec.regDepth seq r = 0 ∨ ∃ pre o, r ∈ opRegs o ∧ Chain seq pre o (Spec.regDepth seq r)) :=
+  regDepth_is_longest_chain seq r
+
 /-! ## 9. non-vacuity -/
 
 def cnotEE : Op := ⟨.cnot, [⟨.e, 0⟩, ⟨.e, 1⟩], [], ["two-qubit"], []⟩
@@ -592,5 +616,12 @@ example : Metrics.circuitDepth histCircuit = 6 := by decide
 example : histCircuit.registerDepth.toOption = some ([2, 6], [3], [0]) ∧
     (List.range 2).map (fun i => Spec.regDepth (histSchedule.map (·.2)) ⟨.e, i⟩) = [2, 6] ∧
     Spec.regDepth (histSchedule.map (·.2)) ⟨.c, 0⟩ = 0 ∧ Spec.depth (histSchedule.map (·.2)) = 6 := by decide
+
+/-- a chain of three operations in `seq2`: `CNOT e0→e1`, the wrapper on `e1`, the measurement on `e1, p0` -/
+example : Chain seq2 [cnotEE, wrapE1] mcr 3 :=
+  Chain.snoc (pre1 := [cnotEE]) (mid := []) (suf2 := [idP0, hP0, cnotEE])
+    (Chain.snoc (pre1 := []) (mid := []) (suf2 := [mcr, idP0, hP0, cnotEE]) (Chain.single (suf := [wrapE1, mcr, idP0, hP0, cnotEE]) rfl) rfl
+      ⟨⟨.e, 1⟩, by decide, by decide⟩)
+    rfl ⟨⟨.e, 1⟩, by decide, by decide⟩
 
 end Graphiq.C18
